@@ -136,7 +136,8 @@ inline void sock_abort_ops(sock_rec* s) {
 }
 inline sock_rec* pending_connect() { for (auto* s : world().socks) if (s->h_connect) return s; return nullptr; }
 inline sock_rec* pending_read() { for (auto* s : world().socks) if (s->h_read) return s; return nullptr; }
-inline sock_rec* pending_write() { for (auto* s : world().socks) if (s->h_write) return s; return nullptr; }
+// (a write still in flight on a connection that already failed is out of the harness's reach: it ends when the client closes that socket)
+inline sock_rec* pending_write() { for (auto* s : world().socks) if (s->h_write && !s->broken) return s; return nullptr; }
 inline int count_pending_connects() { int n = 0; for (auto* s : world().socks) if (s->h_connect) n++; return n; }
 inline void complete_connect(sock_rec* s, error_code ec) {
   if (!ec) { s->connected = true; s->conn_epoch = world().connect_attempts; }
